@@ -300,3 +300,9 @@ def fx_propagate_keyword(case, viol):
 
 def fx_path_metadata(case, viol):
     return viol["clause"] == "unexpected exception from pyrex" and "_metadata" in viol["detail"].get("message", "")
+
+
+def kf_basic_max_angle_nan(case, viol):
+    """see KF-C01-basic-max-angle-nan: the numeric tracer's root bracket ends on a NaN for about 1 in 300 pairs."""
+    d = viol["detail"]
+    return case.get("tracer") == "basic" and viol["clause"] == "unexpected exception from pyrex" and "NaN" in d.get("message", "") and d.get("raised_in", "").endswith("angle_search")
